@@ -75,7 +75,8 @@ func (env *ExecEnv) Get(name string) (v Var, set bool) {
 			Name:  name,
 			Value: value,
 		}
-		set = value != ""
+		// $- is set even when no option is
+		set = value != "" || name == "-"
 		return
 	}
 Default:
